@@ -6,7 +6,7 @@ bad=0
 for seed in $(seq $FIRST $LAST); do
   for p in C01 C02 C03 C04 C05 C06 C08 C09 C10 C11 C12 C13 C14 C15 C17 C18 C19 C20; do
     out=$(VERIF_SEED=$seed ./check $p --tier $TIER 2>&1); rc=$?
-    if [ $rc -ne 0 ]; then bad=$((bad+1)); echo "ALARM seed=$seed $p rc=$rc"; echo "$out" | grep -E "VIOLATION|HARNESS|violation kind" | cut -c1-400 | head -6; else echo "ok seed=$seed $p $(echo "$out" | head -1 | cut -c1-100)"; fi
+    if [ $rc -ne 0 ]; then bad=$((bad+1)); echo "ALARM seed=$seed $p rc=$rc"; echo "$out" | grep -E "VIOLATION|violation kind|sanity|deadline" | cut -c1-400 | head -6; echo "$out" | grep -A30 -m1 "HARNESS" | cut -c1-300; else echo "ok seed=$seed $p $(echo "$out" | head -1 | cut -c1-100)"; fi
   done
 done
 echo "SWEEP DONE bad=$bad"
